@@ -83,7 +83,7 @@ def run(pid, tier, seed, jobs=None, only=None):
             specs = specs + hs
             extra = extra + ['reached-state templates (%d): the same obligations on the last request of histories grown from the empty store by instantiate and <= %d accepted '
                              'requests (1 executor, 1 approver, every denomination an ordinary coin); no state invariant assumed there; at most %d histories per template, depth-first '
-                             '(a template cut short is counted as template_truncated_* in paths_by_outcome)' % (len(hs), max(len(h['steps']) for h in hs) - 1, 600 if tier == 'quick' else 6000)]
+                             '(a template cut short is counted as template_truncated_* in paths_by_outcome)' % (len(hs), max(len(h['steps']) for h in hs) - 1, 600 if tier == 'quick' else 1500)]
         return R.run_check(pid, tier, seed, specs, jobs=jobs, extra_assumptions=extra)
     if pid == 'C06':
         # exits from an arbitrary Inv book + preservation of Inv by every request kind (reduced match shapes: Inv does not depend on the mechanism)
